@@ -1365,17 +1365,7 @@ func (r *Run) drain() *Violation {
 	if len(out) > 0 {
 		// anything still outstanding that is not in a maybe state was never offered
 		for _, e := range out {
-			blocked := false
-			if e.Sub.Cfg.Ordered && e.Msg.Key != "" {
-				for _, p := range e.Sub.EDs {
-					if p == e {
-						break
-					}
-					if p.Msg.Key == e.Msg.Key && !p.definitelySettled(now) {
-						blocked = true
-					}
-				}
-			}
+			blocked := e.Sub.Cfg.Ordered && e.Msg.Key != "" && r.M.orderBlocked(e, now)
 			if !e.DLMaybe && !blocked {
 				return viol(causeProp(e), "drain_not_delivered", "drain budget exhausted; %v still outstanding", e)
 			}
